@@ -79,3 +79,16 @@ func init() {
 		return Float{t}
 	})
 }
+
+func init() {
+	// encoding/json.Marshal: an injective opaque encoding of the value (only ever hashed or compared)
+	intrinsics["encoding/json.Marshal"] = func(ex *Exec, a []Value, _ *Frame) Value {
+		iv, ok := a[0].(Iface)
+		if !ok || iv.T == nil {
+			return Tuple{ex.bytesSlice([]*Term{ex.tf.I64('n'), ex.tf.I64('u'), ex.tf.I64('l'), ex.tf.I64('l')}), Iface{}}
+		}
+		ex.blobCnt++
+		ex.noteAssumption("encoding/json.Marshal is modelled as an injective opaque encoding of its argument")
+		return Tuple{Slice{Blob: &Blob{V: ex.freeze(iv.V, iv.T, 0), Typ: iv.T, Empty: ex.tf.False, ID: ex.blobCnt}}, Iface{}}
+	}
+}
